@@ -115,11 +115,15 @@ def zstr_method(I, s, name, args, kwargs, node):
     if name == "endswith":
         return z3.SuffixOf(zs(args[0]), s)
     if name == "replace":
-        I.ctx.notes.add("str.replace modelled as z3 str.replace_all")
-        try:
-            return z3.ReplaceAll(s, zs(args[0]), zs(args[1]))
-        except AttributeError:
-            raise SymError("ReplaceAll unavailable")
+        # over-approximation: the result is an arbitrary string that no longer contains `old` (when `new` is empty)
+        # and equals the subject when `old` does not occur in it
+        old_, new_ = args[0], args[1]
+        r = z3.String(I.ctx.fresh_name("replaced"))
+        if isinstance(old_, str) and isinstance(new_, str) and old_ and not new_:
+            I.ctx.assume(z3.Not(z3.Contains(r, z3.StringVal(old_))))
+        I.ctx.assume(z3.Implies(z3.Not(z3.Contains(s, zs(old_))), r == s))
+        I.ctx.notes.add("str.replace over-approximated (result: any string without the removed substring)")
+        return r
     if name == "encode":
         return s
     raise SymError("str method %s on symbolic string" % name)
